@@ -231,6 +231,7 @@ structure TriFacts (t cum new out : List Cell) (lags : Option (List Rat)) (u : L
   fin : finishRight t new = .ok out
   newOk : ∀ n ∈ new, n.datesOk = true
   cumPerm : Triangle.isIncremental t = false → out.Perm new
+  newEq : rightTriangleCells cum lags (some u) = .ok new
 
 theorem rightTriangleSlice_edge {lags : Option (List Rat)} {u : LagUnit} {slice cells : List Cell}
     (h : rightTriangleSlice lags u slice = .ok cells) : ∃ edge, Triangle.rightEdge slice = .ok edge := by
@@ -283,7 +284,7 @@ theorem rightTri_facts {t out : List Cell} {lags : Option (List Rat)} {u : LagUn
       fun c hc => ⟨c, hperm.mem_iff.mp hc, rfl, rfl⟩, fun n hn => ⟨n, hperm.mem_iff.mpr hn, rfl, rfl⟩,
       rightTriangleCells_edges hnew, (fun h' => by rw [hinc] at h'; cases h'),
       fun n hn => RightTriCell.empty ((rightTriangleCells_mem hnew n).mp hn), hfin,
-      rightTriangleCells_datesOk hnew, fun _ => hperm⟩
+      rightTriangleCells_datesOk hnew, fun _ => hperm, hnew⟩
   | true =>
     obtain ⟨cum, new, right, hcum, hni, hnew, hright, hperm, hfin⟩ := rightTri_reduces hinc h
     have hiff := rightTriangleCells_mem hnew
@@ -291,7 +292,7 @@ theorem rightTri_facts {t out : List Cell} {lags : Option (List Rat)} {u : LagUn
       fun n hn => RightTriCell.empty ((hiff n).mp hn)
     have hchain := finishRight_inc hinc hempty hfin
     refine ⟨cum, new, Or.inr ⟨hinc, hcum⟩, hiff, ?_, ?_, rightTriangleCells_edges hnew, fun _ => hchain,
-      hempty, hfin, rightTriangleCells_datesOk hnew, (fun h' => by rw [hinc] at h'; cases h')⟩
+      hempty, hfin, rightTriangleCells_datesOk hnew, (fun h' => by rw [hinc] at h'; cases h'), hnew⟩
     · intro c hc
       obtain ⟨_, _, hch⟩ := hchain c hc
       rcases hch with ⟨_, _, _, _, _, _, _, ⟨n, hn, hk, he⟩, _⟩ | ⟨_, _, b, hb, _, hk, _, he, _⟩
